@@ -25,7 +25,9 @@ type probeScript struct {
 var probeScripts = map[string]probeScript{} // by probe name; default = applies, pass
 
 type probeCfg struct {
-	N int
+	N     int
+	Calls int // bumped by every CheckApplies / Execute of the instance: a fresh instance always starts at 0
+	calls int
 }
 
 type c04Probe struct {
@@ -41,6 +43,10 @@ func (p *c04Probe) script() probeScript {
 }
 
 func (p *c04Probe) applies() bool {
+	if p.cfg != nil {
+		p.cfg.Calls++
+		p.cfg.calls++
+	}
 	b := p.script().applies
 	spyEmit(spyEvent{lint: p.name, what: "applies", applies: b})
 	return b
@@ -50,7 +56,12 @@ func (p *c04Probe) execute() *lint.LintResult {
 	s := p.script()
 	d := s.details
 	if p.cfg != nil {
+		p.cfg.Calls++
+		p.cfg.calls++
 		d = fmt.Sprintf("%s N=%d", d, p.cfg.N)
+		if p.cfg.Calls != 2 || p.cfg.calls != 2 { // exactly one CheckApplies and this Execute on a FRESH instance
+			d = fmt.Sprintf("%s STALE-INSTANCE(calls=%d/%d)", d, p.cfg.Calls, p.cfg.calls)
+		}
 	}
 	spyEmit(spyEvent{lint: p.name, what: "execute", details: d})
 	if s.outcome == "panic" {
@@ -371,4 +382,28 @@ func c04Probes(c *mon.Ctx) {
 		}
 	}
 	probeScripts = map[string]probeScript{}
+	// the same Configuration object used for several runs in a row (what every real caller does): each run must
+	// still get fresh, freshly configured instances
+	for _, doc := range []string{"", "[e_verif_probe_cert_community_cfgtrue_in]\nN = 5\n[e_verif_probe_crl_community_cfgtrue_in]\nN = 6\n[e_verif_probe_ocsp_community_cfgtrue_in]\nN = 8\n"} {
+		reg.SetConfiguration(mustConfig(doc))
+		for _, oname := range []string{"tls", "crl", "ocsp", "smime"} {
+			o := objs[oname]
+			if o == nil {
+				continue
+			}
+			for rep := 0; rep < 4; rep++ {
+				rs, pv, _ := o.Lint(reg)
+				c.R.Count("evaluations", 1)
+				if pv != nil || rs == nil {
+					continue
+				}
+				for name, r := range rs.Results {
+					if strings.Contains(r.Details, "STALE-INSTANCE") {
+						c.V("instance-not-fresh|"+o.Kind.String(), fmt.Sprintf("run %d under one Configuration: %s ran on an instance that had been used before (%s)", rep+1, name, r.Details), name, inputs(o), nil)
+					}
+				}
+				c.R.Count("same_configuration_reruns", 1)
+			}
+		}
+	}
 }
